@@ -23,5 +23,16 @@ PROPS["C10"] = {
             "leaf changes' all-or-nothing contract assumed (OS-level atomicity of one fs call); observers do not raise.",
     "undecided": ["failure inside the rollback itself (second fault)", "selective undo of several dependent changes failing part-way"],
 }
+PROPS["C11"] = {
+    "sidecars": ["c11_history.py", "c10_change.py"],
+    "level": "proof",
+    "claim": "Proof level for the list discipline and the inverse laws of plain undo/redo: History.do clears redo, keeps the undo list within the "
+             "limit (_remove_extra_items), undo/redo with empty lists are refused without effect (HistoryError exceptional post), plain undo moves exactly "
+             "the last change to the redo list and un-applies it, redo is its inverse (lemma over the two contracts), ChangeSet.undo restores the tree "
+             "its do started from -- for every history.  Selective undo (dependency closure, equals never having made them) is a bounded stand-in.",
+    "note": "leaf inverse law unapply(c, apply(c,t)) == t is an axiom over the abstract tree (file-system behaviour of one leaf change assumed; "
+            "RemoveResource.undo is a known finding); distinct change objects in the lists; single-fault assumption for exceptional posts.",
+    "undecided": ["selective undo beyond the bounded domain", "leaf changes' inverse law over a concrete file-system model"],
+}
 _NB = "check not built yet (framework under construction; see DESIGN.md section 8)"
 NOT_APPLICABLE = {"C%02d" % i: _NB for i in range(1, 21)}
